@@ -205,7 +205,7 @@ fn run_pair<T: Sc>(idx: usize, h: &HiLine, rep: &mut Report) {
         return;
     };
     let pools = [1usize, 2, 4, 16];
-    let pool = rayon::ThreadPoolBuilder::new().num_threads(pools[idx % 4]).build().unwrap();
+    let pool = crate::pools::pool(pools[idx % 4]);
     for (si, st) in h.steps.iter().enumerate() {
         let flav = format!("behaviour={} pair {} pool={}", idx, T::NAME, pools[idx % 4]);
         for (prob, script) in [(&mut ps, &ss), (&mut pp, &sp)] {
